@@ -49,6 +49,22 @@ func forCases(prop, tier string, seed uint64) []Case {
 			}
 		}
 	}
+	// random call histories (the C02 generator and reference model, incl. unusual spellings and exotic values) on a filesystem whose
+	// tape starts as a foreign archive with nothing but a top-level directory: every branch of name resolution by root style
+	nh := 120
+	if tier == "thorough" {
+		nh = 3000
+	}
+	rh := newRand(subSeed(seed, prop, tier, "rooted"))
+	hcfgs := someCfgs(rh, 6)
+	for k := 0; k < nh; k++ {
+		root := []string{"./", "/", "top/", ".hid/", "top dir/", "a/b/"}[k%6]
+		hc := Cfg{Level: "fastest", RS: []int{1, 3, 20, 64}[k%4], WC: []string{"file", "memory"}[(k/2)%2]} // foreign members are plain: no codecs
+		_ = hcfgs
+		sp := seqP{Cfg: hc, Steps: 8 + rh.Intn(14), Exotic: k%3 == 2, Root: root, RootFmt: []string{"ustar", "pax", "gnu"}[(k/6)%3]}
+		pb, _ := json.Marshal(sp)
+		cases = append(cases, Case{ID: fmt.Sprintf("c17-hist-%04d", k), Seed: subSeed(seed, prop, tier, "hist", fmt.Sprint(k)), Kind: "rooted-history", P: pb})
+	}
 	pb, _ := json.Marshal(forP{Format: "pax", Root: "./", RS: 20, Witness: "chmod-foreign-member"})
 	cases = append(cases, Case{ID: "c17-witness-chmod-foreign-member", Seed: 5, Kind: "witness:chmod-foreign-member", P: pb})
 	for _, wn := range []string{"symlink-member", "hardlink-member"} {
@@ -164,6 +180,13 @@ func writeForeignTar(p forP, ents map[string]*fEnt, order []string) ([]byte, err
 }
 
 func forRun(prop, tier string, c Case, w *Worker) (res Result) {
+	if c.Kind == "rooted-history" {
+		res = seqRun("C02", tier, c, w)
+		if res.Verdict == "violation" {
+			res.Sig = "c17|" + strings.TrimPrefix(res.Sig, "c02|")
+		}
+		return
+	}
 	var p forP
 	_ = json.Unmarshal(c.P, &p)
 	kind := "random"
@@ -510,6 +533,6 @@ func sortedKeys(t Tree) []string {
 func init() {
 	register(&Engine{Name: "foreign", Props: []string{"C17"}, Cases: forCases, Run: forRun})
 	propMeta["C17"] = PropMeta{Level: "exploration",
-		Rule:        "per case a generated tree (depth <= 4, names with spaces, non-ASCII, '_' and '%', one 124-byte component for PAX/GNU, sizes 0..40000) is written by archive/tar in USTAR, PAX or GNU format with members named under './', '/' or 'top/' and a top-level directory entry (optionally followed by blocking-factor padding), opened through the documented composition (Initialize + NewCacheFilesystem) with record size 1, 20 or 64; every member must be listed under its directory and read back byte-identical, three spellings of up to 12 paths must agree, 5-10 entries added through the filesystem must coexist with the members, 3-6 further calls (rename of a file / of a directory, Remove, RemoveAll, rewrite - on original members and added entries alike) must each leave exactly the expected tree, all of it live and after a rebuild from the tape, and Initialize must not change the archive; non-trivial = at least 3 members; distinct = distinct archive bytes",
+		Rule:        "per case a generated tree (depth <= 4, names with spaces, non-ASCII, '_' and '%', one 124-byte component for PAX/GNU, sizes 0..40000) is written by archive/tar in USTAR, PAX or GNU format with members named under './', '/' or 'top/' and a top-level directory entry (optionally followed by blocking-factor padding), opened through the documented composition (Initialize + NewCacheFilesystem) with record size 1, 20 or 64; every member must be listed under its directory and read back byte-identical, three spellings of up to 12 paths must agree, 5-10 entries added through the filesystem must coexist with the members, 3-6 further calls (rename of a file / of a directory, Remove, RemoveAll, rewrite - on original members and added entries alike) must each leave exactly the expected tree, all of it live and after a rebuild from the tape, and Initialize must not change the archive; plus (rooted histories) random call histories from the C02 generator (8-21 calls, unusual spellings, exotic values) against the reference model on a filesystem whose tape starts as a ustar / pax / gnu archive holding only a top-level directory named ./, /, top/, .hid/, "top dir/" or a/b/ (every call's outcome and the full tree compared after every call); non-trivial = at least 3 members; distinct = distinct archive bytes",
 		Assumptions: []string{"the archive is written by archive/tar; blocking-factor padding as GNU tar produces it is imitated by appending zero blocks"}}
 }
